@@ -134,6 +134,10 @@ def val(v):
         return f'(VDt UD {z((v - _dt.date(1970, 1, 1)).days)})'
     if isinstance(v, (tuple, list)):
         return '(VTup ' + lst([val(x) for x in v]) + ')'
+    if type(v) is object:
+        # a bare object() is only ever a private sentinel of the library; no model output equals this literal,
+        # so a sentinel leaking into a result is reported as a disagreement instead of crashing the harness
+        return '(VTup [VStr "<bare object() sentinel>"])'
     raise ValueError(f'no val literal for {type(v).__name__} {v!r}')
 
 
